@@ -25,7 +25,7 @@ tg_setting = _ + (note('note') | tg_color) + _
 tg_settings = '[' + tg_setting + (',' + tg_setting)[...] + ']'
 
 table_group = _c + (
-    pp.CaselessLiteral('TableGroup')
+    pp.CaselessKeyword('TableGroup')
     - name('name') + _
     + tg_settings[0, 1] + _
     - '{' + _
